@@ -27,6 +27,36 @@ U_SET = ('single-step harnesses u_set_tcp4, u_replace_tcp4, u_insert_raw (arbitr
          'the signing fault is one symbolic bit.')
 
 CLAIMS = {
+    'C01': dict(
+        text='Bounded model checking of the real decoder with an UNINTERPRETED verifier (d_min_lite: every filling of the template [sig4, seq, id:<2 bytes>, k:<key>] '
+             'followed by 0 or 43 arbitrary bytes): a record is accepted only if the verifier was consulted, answered yes, and was asked about the public key carried in that very record; '
+             'verify() itself is pinned on arbitrary by-parts records (a_verify_iff: true exactly for id v4 and a signature of the carried key over the record content). '
+             'Thorough: k256 verify_v4 glue with the EC equation stubbed (64-byte only, r/s range, high-S twin rejected before the equation, r||s passed unmodified).',
+        note='What is decided is the wiring around the signature primitive (what is verified, with which key, what is done with the answer), for the model scheme MKey; '
+             'unforgeability and the arithmetic of k256 / libsecp256k1 / ed25519-dalek are trusted. The message handed to the verifier is checked by length and three sampled bytes only. '
+             'rust-secp256k1 and ed25519 verify_v4 are not covered (primitive behind FFI / trait seams).',
+        ref='DESIGN.md section 4/C01'),
+    'C02': dict(
+        text='Bounded model checking of the real decoder: d_min_lite decides accept <=> (well-formed and verifier says yes) for ALL fillings of the minimal template; the size gate and prefix-locality '
+             'are decided on the scaled limit for items of 20/32/33 bytes followed by every suffix length 0..=27 of arbitrary bytes; every other structural rule (ordering, duplicates, missing value/id/key, '
+             'ill-typed tcp/tcp6/udp/udp6/ip/ip6, non-canonical integers and lengths, list-for-string, outer header forms, overrun) is decided on 46 concrete probe records (13 must be accepted verbatim, '
+             '33 must be rejected although the verifier says yes), which fold completely and stay decidable for changed decoders.',
+        note='Templates with more than two pairs and symbolic payload exhaust memory (measured), so the per-rule checks are concrete inputs, not for-all; records <= 40 bytes; MKey instantiation; '
+             'public keys of the built-in schemes (valid-key clause) are outside this check.',
+        ref='DESIGN.md section 4/C02'),
+    'C03': dict(
+        text='Every harness of every family is checked by Kani for reachable panics (unwrap/expect/index/slice/overflow/unreachable) and, where memory-safety checks are on, for invalid pointer use; '
+             'a failing panic-class check in any harness registered here is a C03 violation. Dedicated obligations: get() on whatever insert_raw_rlp/builder stored (u_insert_raw, u_build_raw), '
+             'public_key()/NodeId::from after every update step, all typed accessors on arbitrary one-item raw values, decoder and text parser on probe inputs, NodeId parse/deserialise on all inputs in bounds.',
+        note='Totality is decided only inside the bounds of the harnesses listed; Debug/Display formatting of records is not executed (formatting machinery does not fit the caps); termination = unwinding assertions.',
+        ref='DESIGN.md section 4/C03'),
+    'C04': dict(
+        text='Fragments decided: decoded records report custom and reserved values as the raw RLP of the input and re-encode to the input length (13 accepted probe records incl. empty/nested lists, empty string, '
+             'single byte, 2^64-1); values stored by insert_raw_rlp / the builder are exactly the bytes given and readable through get() (u_insert_raw, u_build_raw); canonical text parses back (t_probes_accept). '
+             'Thorough: to_base64 of a concrete record.',
+        note='decode(encode(e)) == e for arbitrary e and byte-exact re-encoding are NOT decided for symbolic records: reading an encoded record back exhausts the solver (array-theory blow-up, DESIGN.md 11.2). '
+             'JSON through serde_json not covered (serde driven by value (de)serialisers).',
+        ref='DESIGN.md section 4/C04'),
     'C05': dict(
         text='Bounded model checking of the real mutators: ' + U_SET + ' On Ok the post-state is asserted to be the sorted-map model '
              'result, signed by the signer over exactly that content (MAC model), with the signer\'s key and node id, within the '
@@ -58,6 +88,21 @@ CLAIMS = {
              'same-key updates, re-keyed under other-key updates (injective digest stub).',
         note=U_NOTE + ' Keccak-256 itself and k256 point decompression are trusted (pinned by the suite\'s vector tests).',
         ref='DESIGN.md section 4/C10'),
+    'C11': dict(
+        text='FRAGMENT only: CombinedKey::enr_to_public uses the secp256k1 entry whenever it is present and valid, else the ed25519 entry, else fails; the k256 and ed25519 key types consult only their own entry '
+             '(all presence x validity combinations, point decoding stubbed by symbolic validity bits); key names of the back-ends; ed25519 / rust-secp256k1 uncompressed encodings.',
+        note='The main clause (three back-ends accept exactly the same inputs and agree on all reported fields) is a statement about the arithmetic of three independent crypto libraries, one behind FFI, and is NOT decided by this check.',
+        ref='DESIGN.md section 4/C11'),
+    'C12': dict(
+        text='Strict parsing decided on concrete probe texts through the real from_str / base64 engine / decoder (fold completely): canonical text accepted with and without prefix (incl. the - and _ characters); '
+             'repeated / upper-case / malformed prefix, padding, standard alphabet, blanks, newline, non-zero trailing bits, a byte after the record, an extra or missing character all rejected; Deserialize as strict as from_str.',
+        note='Concrete inputs, not for-all: the base64 engine on symbolic text does not fit the caps (82 s for 8 characters; a record needs 23). Error-message formatting stubbed on reject paths. Display/Serialize of records in the thorough tier only.',
+        ref='DESIGN.md section 4/C12'),
+    'C13': dict(
+        text='Decided on the scaled limit (32): an item of 20, 32 or 33 bytes followed by EVERY suffix length 0..=27 of arbitrary bytes gets the outcome of the item alone (size error exactly above the limit); '
+             'the minimal template followed by 0 or 43 arbitrary bytes is accepted/rejected as without suffix and the slice is advanced by exactly the item length.',
+        note='Suffix lengths are enumerated as concrete slice lengths selected by a symbolic value (a symbolic slice length defeats constant folding in CBMC); buffers <= 60 bytes; sequences/lists of records not covered.',
+        ref='DESIGN.md section 4/C13'),
     'C14': dict(
         text='Bounded model checking of every typed accessor against a reference decoder on records assembled from arbitrary parts: all one-item raw values '
              '<= 4 bytes under each port key (all 65536 ports and every malformed form), <= 6 / <= 18 bytes under ip / ip6, id, get_decodable::<u64>; '
@@ -84,6 +129,8 @@ CLAIMS = {
 }
 
 NOT_APPLICABLE = {
+    'C17': 'CombinedKey import/export: the validity range check lives in crypto-bigint constant-time code that Kani models differently from the real build (probe counterexample ff..fe baae..4141 < n does not replay), '
+           'public-key derivation is EC scalar multiplication / SHA-512 (out of reach for bit-blasting), and ed25519 import offers only trait seams that Kani cannot stub; no sound solver-based check could be built.',
 }
 
 PENDING = 'check under construction in this build phase (see DESIGN.md section 4); not claimed yet'
